@@ -5,6 +5,7 @@
 mod util;
 mod c01;
 mod c15;
+mod walk;
 
 pub struct Opts {
     pub tier: String,
@@ -41,6 +42,7 @@ fn main() {
     let summary = match args[1].as_str() {
         "c01" => c01::run(&o, deck),
         "c15" => c15::run(&o, deck),
+        "walk" => walk::run(&o, deck, "walk"),
         x => {
             eprintln!("unknown check {}", x);
             std::process::exit(2);
